@@ -18,6 +18,15 @@ mod tree_cache;
 mod utils;
 pub mod write_atom;
 
+/// verification hooks (only with `--cfg chia_network_clvm_rs_verif`): re-exports of private
+/// byte-level helpers for the external harness crate
+#[cfg(chia_network_clvm_rs_verif)]
+pub mod verif_hooks {
+    pub use super::parse_atom::decode_size_with_offset;
+    pub use super::tools::verif_is_canonical_atom as is_canonical_atom;
+    pub use super::write_atom::verif_write_atom_encoding_prefix_with_size as write_atom_encoding_prefix_with_size;
+}
+
 #[cfg(test)]
 mod test;
 #[cfg(test)]
